@@ -242,7 +242,11 @@ NOINSTR void arena_free(char *user) {
 	if (h->magic != MAGIC_LIVE) { snprintf(S.res.msg, sizeof S.res.msg, "free of a pointer that is not the start of a block (or header overwritten)"); finish(K_BADFREE, 0); }
 	if (!check_canaries(user)) { snprintf(S.res.msg, sizeof S.res.msg, "heap block of %zu bytes overrun/underrun (detected at free)", (size_t)h->size); finish(K_CANARY, 0); }
 	h->magic = MAGIC_FREE;
-	memset(user, 0xdd, h->size);
+	if (S.plan->free_policy == 2) {
+		// what a production allocator does: the block keeps its contents, only the first
+		// 16 bytes are taken for free-list links - a use after free "works"
+		memset(user, 0xdd, h->size < 16 ? h->size : 16);
+	} else memset(user, 0xdd, h->size);
 	if (S.plan->free_policy == 1) S.freelist[h->size].push_back(user);
 }
 
